@@ -369,6 +369,10 @@ func runE3(prop, tier string) int {
 	if prop == "C08" {
 		c08Static(rep, tier)
 	}
+	if prop == "C07" || prop == "C08" {
+		// -stub / -with-resets must take effect when the mock is regenerated over an older file
+		cliFlagSequences(fx, work, rep, "sequence: ")
+	}
 	rep.Assume = []string{"reflection calls behave like direct calls", "values of interface types with methods are passed as nil (they cannot be implemented by reflection)", "argument domain: 2 tokens per parameter"}
 	return rep.Finish()
 }
